@@ -35,7 +35,7 @@ func gCorpus(c *Ctx, mode int) []*corpus.Spec {
 			want[s.Name] = true
 		}
 	default:
-		for _, n := range []string{"expr_std", "expr_nonassoc", "etf", "lvalue", "sep_ba", "nqlalr", "list_null", "opt_mid", "prec_mixed", "nullseq_OM", "etf_basefirst", "dangling_else", "len4"} {
+		for _, n := range []string{"expr_std", "expr_nonassoc", "etf", "lvalue", "sep_ba", "nqlalr", "list_null", "opt_mid", "prec_mixed", "nullseq_OM", "etf_basefirst", "dangling_else", "len4", "len10", "stmts12"} {
 			want[n] = true
 		}
 	}
@@ -109,7 +109,11 @@ func gParse(c *Ctx, mode int, tag string) {
 			if j.s.HasTag("lalr1") {
 				m |= modeLALR
 			}
-			job := c.GenJob(g, j.s, j.v, "VerifParse", []int{N, m}, tag)
+			n := N
+			if j.s.MinN > n {
+				n = j.s.MinN
+			}
+			job := c.GenJob(g, j.s, j.v, "VerifParse", []int{n, m}, tag)
 			job.Need = []string{"reject"}
 			job.Tweak = nil
 			c.RunSym(job)
@@ -128,7 +132,11 @@ func gParse(c *Ctx, mode int, tag string) {
 			if s.HasTag("lalr1") {
 				m |= modeLALR
 			}
-			c.tsParseJob(g.Eng, s, g.TSPath(s.Name), N, m, tag)
+			n := N
+			if s.MinN > n {
+				n = s.MinN
+			}
+			c.tsParseJob(g.Eng, s, g.TSPath(s.Name), n, m, tag)
 			c.MarkDistinct(s.Name + "/ts")
 		}()
 	}
